@@ -105,4 +105,30 @@ func probe3(c *Ctx) {
 	for _, s := range c18Sites(c) {
 		fmt.Printf("%s\t%s\t%s\t%s\n", s.Kind, s.Status, s.Key, s.Pos)
 	}
+	for _, f := range c18Scope(c) {
+		ssax.Instrs(f, func(in ssa.Instruction) {
+			if mu, ok := in.(*ssa.MapUpdate); ok {
+				fmt.Printf("MAPUPDATE\t%s\t%s\t%s\n", shortFn(f), npath(mu.Map), c.PosOf(in))
+			}
+		})
+	}
+}
+
+func init() { Registry["PROBE4"] = probe4 }
+
+// probe4 dumps the SSA of the function named by DCVERIF_FN ("rel|recv|name") after inlining.
+func probe4(c *Ctx) {
+	parts := strings.Split(os.Getenv("DCVERIF_FN"), "|")
+	if len(parts) != 3 {
+		return
+	}
+	fn := c.P.Func(parts[0], parts[1], parts[2])
+	if fn == nil {
+		fmt.Println("not found")
+		return
+	}
+	fn.WriteTo(os.Stdout)
+	for _, il := range c.P.Inlined {
+		fmt.Println("INLINED", il.Caller, "<-", il.Callee, il.Pos)
+	}
 }
